@@ -182,6 +182,10 @@ mut("infix_ties_do_not_reduce", ["C15"], "parser.parseInfixExpression/exit/loop1
     [("parser.go", "\t\t\t\tif comparePrecedence(car, top.t) > 0 {\n\t\t\t\t\tbreak", "\t\t\t\tif comparePrecedence(car, top.t) >= 0 {\n\t\t\t\t\tbreak")], "operators of equal precedence group from the right")
 mut("generator_safe_pool_contains_mod", ["C20"], "GenerateRandomExpr/pre/GenerateRandomExpr.helper[operator-pools]",
     [("util.go", '\t\tnumSafeOps = []string{"+", "-", "*"}', '\t\tnumSafeOps = []string{"+", "-", "*", "%"}')], "the pool used when an operand is 0 contains %")
+mut("rco_or_operand_gets_and_bit", ["C04"], "calAndSetShortCircuitForRCO/",
+    [("compiler.go", "\t\tcase isOrOpNode(p):\n\t\t\tn.flag |= orOp\n\t\tcase p.getNodeType() == cond", "\t\tcase isOrOpNode(p):\n\t\t\tn.flag |= andOp\n\t\tcase p.getNodeType() == cond")], "operands of or are flagged as operands of and")
+mut("rco_condition_inherits_instead_of_branches", ["C04"], "calAndSetShortCircuitForRCO/",
+    [("compiler.go", "\t\tcase p.getNodeType() == cond && int16(i) > pIdx && n.value != \"fi\":", "\t\tcase p.getNodeType() == cond && int16(i) < pIdx && n.value != \"fi\":")], "the condition of an if inherits the enclosing and/or flag instead of the branches")
 
 def main():
     out = os.path.join(os.path.dirname(os.path.abspath(__file__)), "mutants")
